@@ -62,6 +62,10 @@ func (k Keeper) Withdraw(ctx sdk.Context, order ordertypes.Order) (sdk.Coin, err
 		} else if shard.Status == ordertypes.ShardWaiting {
 			// refundDec += price * shardSize * shardDuration
 			refundDec = refundDec.Add(shardIncomePerBlock.MulInt64(int64(order.Duration)))
+		} else if shard.Status == ordertypes.ShardCompleted && shard.OrderId < order.Id {
+			// a renewal whose period has not started yet for this shard: nothing of it
+			// has been earned, so its whole price for the shard is refunded
+			refundDec = refundDec.Add(shardIncomePerBlock.MulInt64(int64(order.Duration)))
 		}
 	}
 
